@@ -69,14 +69,14 @@ func circuitMode(args []string) int {
 	rng := hxlib.NewRng(cf.Seed)
 	c, err := loadCircuit(repo)
 	if err != nil {
-		o.Fail("c18-harness", map[string]any{"err": err.Error()})
+		failK(o, "c18-harness", map[string]any{"err": err.Error()})
 		return 0
 	}
 	// shape the protocol code relies on (params.go init)
 	shapeOK := len(c.Inputs) == 2 && int(c.Inputs[0].Type.Bits) == 256 && int(c.Inputs[1].Type.Bits) == 256 &&
 		c.Outputs.Size() == 256 && c.NumParties() == 2
 	if !shapeOK {
-		o.Fail("c18-circuit-shape", map[string]any{"inputs": fmt.Sprint(c.Inputs), "outputs": fmt.Sprint(c.Outputs)})
+		failK(o, "c18-circuit-shape", map[string]any{"inputs": fmt.Sprint(c.Inputs), "outputs": fmt.Sprint(c.Outputs)})
 	}
 	// well-formedness in the sense of Model/Circuit.lean, recomputed here
 	def := make([]bool, c.NumWires)
@@ -107,7 +107,7 @@ func circuitMode(args []string) int {
 	}
 	o.Op("cfull "+hxlib.CircLine(c), fmt.Sprintf("cfull gates=%d wf=%d outdef=%d", len(c.Gates), b2i(wf), b2i(outdef)))
 	if !wf || !outdef {
-		o.Fail("c18-circuit-not-wf", map[string]any{"wf": wf, "outdef": outdef})
+		failK(o, "c18-circuit-not-wf", map[string]any{"wf": wf, "outdef": outdef})
 	}
 	o.Meta["circuit"] = map[string]any{"gates": len(c.Gates), "wires": c.NumWires, "stats": fmt.Sprint(c.Stats)}
 	for k := 0; k < cf.N; k++ {
@@ -146,7 +146,7 @@ func circuitMode(args []string) int {
 		ref := hxlib.RefEval(c, append(bitsLE(a[:]), bitsLE(b[:])...))
 		refOut := packLE(ref[c.NumWires-256:])
 		if err != nil || hxlib.Hex(got) != hxlib.Hex(want[:]) || hxlib.Hex(refOut) != hxlib.Hex(want[:]) {
-			o.Fail("c18-circuit-not-sha256-xor", map[string]any{"case": k, "a": hxlib.Hex(a[:]), "b": hxlib.Hex(b[:]),
+			failK(o, "c18-circuit-not-sha256-xor", map[string]any{"case": k, "a": hxlib.Hex(a[:]), "b": hxlib.Hex(b[:]),
 				"compute": res, "ref": hxlib.Hex(refOut), "want": hxlib.Hex(want[:]),
 				"rerun": fmt.Sprintf("c18 circuit -seed %d -n %d -only %d", cf.Seed, cf.N, k)})
 		}
